@@ -10,11 +10,14 @@ namespace GoCo.MG
 
 /-- does return.go's `hasBreak` panic on an unlabelled `break`? (true on the pinned tree) -/
 structure Quirks where
-  hasBreakPanicsOnUnlabelled : Bool := true
-  taglessYieldSwitchPanics : Bool := true      -- X.Switch with a nil tag: "invalid switch"
-  switchKindRejectedByReturnNormal : Bool := true  -- returnNormalRequired asserts kind ∈ {delay, for, if}
-  switchLastGetsNoNormal : Bool := true        -- a yielding switch as last statement gets no implicit Normal
-  nilCondWithPostPanics : Bool := true         -- CallFor passes a typed-nil *ast.FuncLit as condition
+  -- each flag reproduces one defect of the PINNED tree; all five were repaired in /repo by "fix:" commits
+  -- (DESIGN.md 8.2), so the tree under verification is `currentQuirks` = all false.  The theorems hold
+  -- for every setting; the pinned behaviour stays expressible as `pinnedQuirks`.
+  hasBreakPanicsOnUnlabelled : Bool := false   -- D10a: return.go hasBreak label test inverted
+  taglessYieldSwitchPanics : Bool := false     -- D10b: X.Switch with a nil tag: "invalid switch"
+  switchKindRejectedByReturnNormal : Bool := false  -- D10c: returnNormalRequired asserts kind ∈ {delay, for, if}
+  switchLastGetsNoNormal : Bool := false       -- D11a: a yielding switch as last statement gets no implicit Normal
+  nilCondWithPostPanics : Bool := false        -- D10d: CallFor passes a typed-nil *ast.FuncLit as condition
 deriving Repr, DecidableEq
 
 mutual
